@@ -196,6 +196,109 @@ static void rbh_dump(RbhBuf *b)
   printf("D{"); rbh_putaux(b); printf("}{"); rbh_putraw(b->rb); printf("}{"); rbh_putapi(b->rb); printf("}");
 }
 
+/* ---- flushing (C04) ---- */
+static void rbh_putpen_canon(const TickitPen *pen)
+{
+  printf("f%db%dB%du%d", tickit_pen_get_colour_attr(pen, TICKIT_PEN_FG), tickit_pen_get_colour_attr(pen, TICKIT_PEN_BG),
+         tickit_pen_get_bool_attr(pen, TICKIT_PEN_BOLD) ? 1 : 0, tickit_pen_get_int_attr(pen, TICKIT_PEN_UNDER));
+}
+
+/* fl tl tc gl gc P: flush onto a tl x tc mock terminal that shows a sentinel pattern, has its
+ * cursor at (gl, gc) and pen P; prints F{operation log}{final grid} */
+static void rbh_flush_mock(TickitRenderBuffer *rb, int tl, int tc, int gl, int gc, const char *penspec)
+{
+  TickitMockTerm *mt = tickit_mockterm_new(tl, tc);
+  TickitTerm *tt = (TickitTerm *)mt;
+  for(int l = 0; l < tl; l++) {
+    tickit_term_goto(tt, l, 0);
+    for(int c = 0; c < tc; c++) {
+      TickitPen *sp = tickit_pen_new();
+      tickit_pen_set_colour_attr(sp, TICKIT_PEN_FG, 16 + (l + 2 * c) % 5);
+      tickit_term_setpen(tt, sp);
+      tickit_pen_unref(sp);
+      char ch[2] = { 'a' + (l * 7 + c * 3) % 26, 0 };
+      tickit_term_print(tt, ch);
+    }
+  }
+  tickit_term_goto(tt, gl, gc);
+  TickitPen *prior = rbh_pen(penspec);
+  if(!prior) prior = tickit_pen_new();
+  tickit_term_setpen(tt, prior);
+  tickit_pen_unref(prior);
+  tickit_mockterm_clearlog(mt);
+
+  tickit_renderbuffer_flush_to_term(rb, tt);
+
+  printf("F{");
+  int n = tickit_mockterm_loglen(mt);
+  for(int i = 0; i < n; i++) {
+    TickitMockTermLogEntry *e = tickit_mockterm_peeklog(mt, i);
+    if(i) putchar(',');
+    switch(e->type) {
+      case LOG_GOTO:    printf("G%d.%d", e->val1, e->val2); break;
+      case LOG_PRINT:   putchar('T'); rbh_putcps((const unsigned char *)e->str, e->val1); break;
+      case LOG_ERASECH: printf("X%d.%d", e->val1, e->val2 == TICKIT_YES ? 1 : 0); break;
+      case LOG_SETPEN:  putchar('P'); rbh_putpen_canon(e->pen); break;
+      default:          printf("?%d", (int)e->type);
+    }
+  }
+  printf("}{");
+  for(int l = 0; l < tl; l++) {
+    if(l) putchar('/');
+    for(int c = 0; c < tc; c++) {
+      if(c) putchar(',');
+      size_t need = tickit_mockterm_get_display_text(mt, NULL, 0, l, c, 1);
+      char *buf = malloc(need + 1);
+      tickit_mockterm_get_display_text(mt, buf, need + 1, l, c, 1);
+      rbh_putcps((unsigned char *)buf, need);
+      free(buf);
+      putchar(':');
+      rbh_putpen_canon(tickit_mockterm_get_display_pen(mt, l, c));
+    }
+  }
+  printf("}");
+  tickit_mockterm_destroy(mt);
+}
+
+/* flx tl tc: flush through the xterm driver into a byte buffer; prints X{payload}, the bytes
+ * received with control sequences stripped, as code points */
+typedef struct { unsigned char *b; size_t n, cap; } RbhBytes;
+static void rbh_collect(TickitTerm *tt, const char *bytes, size_t len, void *user)
+{
+  RbhBytes *o = user;
+  if(!bytes || !len) return;     /* tickit_term_destroy announces the end with (NULL, 0) */
+  if(o->n + len + 1 > o->cap) { o->cap = 2 * (o->n + len + 1); o->b = realloc(o->b, o->cap); }
+  memcpy(o->b + o->n, bytes, len); o->n += len;
+}
+static void rbh_flush_xterm(TickitRenderBuffer *rb, int tl, int tc)
+{
+  RbhBytes out = { NULL, 0, 0 };
+  TickitTerm *tt = tickit_term_build(&(struct TickitTermBuilder){
+    .termtype = "xterm", .output_func = rbh_collect, .output_func_user = &out });
+  tickit_term_set_size(tt, tl, tc);
+  tickit_term_flush(tt);
+  out.n = 0;
+  tickit_renderbuffer_flush_to_term(rb, tt);
+  tickit_term_flush(tt);
+  /* strip ESC [ ... final and two-byte ESC sequences */
+  unsigned char *p = malloc(out.n + 1); size_t k = 0;
+  for(size_t i = 0; i < out.n; i++) {
+    if(out.b[i] == 0x1b) {
+      if(i + 1 < out.n && out.b[i + 1] == '[') {
+        i += 2;
+        while(i < out.n && !(out.b[i] >= 0x40 && out.b[i] <= 0x7e)) i++;
+      }
+      else i++;
+      continue;
+    }
+    p[k++] = out.b[i];
+  }
+  printf("X{"); rbh_putcps(p, k); printf("}");
+  free(p);
+  tickit_term_unref(tt);      /* teardown still writes to the output function */
+  free(out.b);
+}
+
 /* ---- the interpreter ---- */
 static int rbh_sep;           /* a blank is due before the next output token */
 static void rbh_tok(void) { if(rbh_sep) putchar(' '); rbh_sep = 1; }
@@ -270,6 +373,13 @@ static void rbh_run_case(void)
       bufs[1].rb = tickit_renderbuffer_new(ARG(0), ARG(1)); p += 2;
     }
     else if(!strcmp(kw, "buf")) { cur = ARG(0) ? 1 : 0; p += 1; }
+    else if(!strcmp(kw, "fl")) { rbh_tok(); rbh_flush_mock(rb, ARG(0), ARG(1), ARG(2), ARG(3), vh_tok[p + 4]); p += 5; }
+    else if(!strcmp(kw, "flx")) { rbh_tok(); rbh_flush_xterm(rb, ARG(0), ARG(1)); p += 2; }
+    else if(!strcmp(kw, "lct")) {
+      rbh_tok(); printf("L{");
+      for(int i = 0; i < 256; i++) printf(i ? ".%x" : "%x", (unsigned)linemask_to_char[i]);
+      printf("}");
+    }
     else {
       int n = rbh_ext(bufs, &cur, kw, p);
       if(n < 0) { rbh_tok(); printf("ERR-op-%s", kw); break; }
